@@ -15,8 +15,7 @@ Model of the second ("full") phase of `navis.nbl.nblast_funcs.nblast_smart` (C09
         res = f.result(); this = futures[f]
         scr[this.mask] = res                                     # boolean-mask assignment, row-major
 
-and of the selection masks `criterion='score'` / `'percentile'` / `'N'` as comparisons against a per-row
-threshold.  `mask r c` is the global selection mask, `g r c` the refined score of query `r` against
+`mask r c` is the global selection mask, `g r c` the refined score of query `r` against
 target `c`, `scr` the pre-NBLAST matrix.
 -/
 namespace Navis.Smart
@@ -25,7 +24,8 @@ open Navis.Partition
 /-- `np.where(m)` for a matrix given as list of rows: the `(row, col)` positions of the `True`
 cells in row-major order. -/
 def whereRM (m : List (List Bool)) : List (Nat × Nat) :=
-  m.zipIdx.flatMap fun (row, a) => row.zipIdx.filterMap fun (v, b) => if v then some (a, b) else none
+  (List.range m.length).flatMap fun a =>
+    (List.range (m.getD a []).length).filterMap fun b => if (m.getD a []).getD b false then some (a, b) else none
 
 /-- `mask.loc[ids of qix, ids of tix]` (ids are unique: label lookup = positional lookup). -/
 def submask (mask : Nat → Nat → Bool) (j : Job) : List (List Bool) :=
@@ -39,18 +39,22 @@ def pairs (mask : Nat → Nat → Bool) (j : Job) : List (Nat × Nat) :=
 def jobScores {α} (g : Nat → Nat → α) (mask : Nat → Nat → Bool) (j : Job) : List α :=
   (pairs mask j).map fun (a, b) => g ((localList j).getD a 0) ((localList j).getD b 0)
 
-/-- `this.mask`: zeros, then the slice `[qix[0]:qix[-1]+1, tix[0]:tix[-1]+1] = submask`.
-`none` when a chunk is empty (`qix[0]` raises) or the slice shape differs from the submask shape
-(numpy refuses the assignment). -/
-def jobMask (mask : Nat → Nat → Bool) (j : Job) : Option (Nat → Nat → Bool) :=
-  match j.qix.head?, j.qix.getLast?, j.tix.head?, j.tix.getLast? with
+/-- `this.mask`: zeros, then the slice `[q0:q1, t0:t1] = submask` for given slice bounds (`q1`, `t1`
+exclusive).  `none` when a bound does not exist (`qix[0]` raises on an empty chunk) or the slice shape
+differs from the submask shape (numpy refuses the assignment). -/
+def jobMaskWith (q0 q1 t0 t1 : Option Nat) (mask : Nat → Nat → Bool) (j : Job) : Option (Nat → Nat → Bool) :=
+  match q0, q1, t0, t1 with
   | some q0, some q1, some t0, some t1 =>
-    if q1 + 1 - q0 = j.qix.length ∧ t1 + 1 - t0 = j.tix.length then
+    if q1 - q0 = j.qix.length ∧ t1 - t0 = j.tix.length then
       let sub := submask mask j
       some fun r c =>
-        if q0 ≤ r ∧ r < q1 + 1 ∧ t0 ≤ c ∧ c < t1 + 1 then ((sub.getD (r - q0) []).getD (c - t0) false) else false
+        if q0 ≤ r ∧ r < q1 ∧ t0 ≤ c ∧ c < t1 then ((sub.getD (r - q0) []).getD (c - t0) false) else false
     else none
   | _, _, _, _ => none
+
+/-- As written: `this.mask[qix[0]:qix[-1]+1, tix[0]:tix[-1]+1] = submask`. -/
+def jobMask (mask : Nat → Nat → Bool) (j : Job) : Option (Nat → Nat → Bool) :=
+  jobMaskWith j.qix.head? (j.qix.getLast?.map (· + 1)) j.tix.head? (j.tix.getLast?.map (· + 1)) mask j
 
 /-- The cells a boolean `nq × nt` mask selects, in the (row-major) order in which
 `frame[mask] = values` consumes `values`. -/
@@ -77,13 +81,6 @@ def refineSerial {α} (g : Nat → Nat → α) (mask : Nat → Nat → Bool) (nq
 /-- Placement of explicitly given per-job value lists (used by the driver on what navis' jobs returned). -/
 def refineBlocks {α} (mask : Nat → Nat → Bool) (nq nt : Nat) (scr : Mat α) (done : List (Job × List α)) : Option (Mat α) :=
   done.foldl (fun s jv => s.bind fun s => (jobMask mask jv.1).map fun jm => placeMask s nq nt jm jv.2) (some scr)
-
-/-! ### Selection masks -/
-
-/-- `criterion='score'`: `mask = scr >= t` (per row the same threshold). `criterion='percentile'`:
-`mask = scr >= np.percentile(scr, q=t, axis=1)[:, None]` — a per-row threshold `sel r`. -/
-def maskGE {α} (le : α → α → Bool) (sel : Nat → α) (scr : Nat → Nat → α) : Nat → Nat → Bool :=
-  fun r c => le (sel r) (scr r c)
 
 /-- Whole smart-NBLAST on abstract scores: pre-NBLAST assembled from jobs completing in order `done1`
 (through the job-local indices), the mask chosen by *any* function `select` of the pre-NBLAST matrix,
